@@ -1,6 +1,7 @@
 package vc
 
 import (
+	"fmt"
 	"go/types"
 
 	"golang.org/x/tools/go/ssa"
@@ -13,18 +14,65 @@ func (x *exec) sliceOfInlineArray(st *pstate, l *Loc, at *types.Array, lo, hi, l
 	return nil
 }
 
+// ---- channels, select, goroutines
+//
+// Channel contents are not modelled. What is checked: a blocking operation never happens while a
+// monitor lock is held (the code under verification would dead-lock or serialise on I/O), and the
+// values received are arbitrary. Under a monitor, shared state is re-read after every Lock anyway.
+
+func (x *exec) blocking(st *pstate, in ssa.Instruction, what string) {
+	if x.monitor != nil && st.held["mu"] {
+		x.emit(st, "nolock."+x.ord[in], "monitor", smt.False, in.Pos(), "blocking "+what+" while holding the monitor lock")
+	}
+}
+
 func (x *exec) recv(st *pstate, in *ssa.UnOp) Val {
-	unsupp("channel receive")
-	return nil
+	x.blocking(st, in, "channel receive")
+	et := in.X.Type().Underlying().(*types.Chan).Elem()
+	v := x.env.FreshVal("recv", x.p.T.SortOf(et))
+	st.assume(x.p.T.Inv(v, et, 0), "type invariant of received value")
+	if in.CommaOk {
+		return Tuple{x.wrap(v, et), x.env.Fresh("recvok", smt.Bool)}
+	}
+	return x.wrap(v, et)
 }
 
 func (x *exec) concurrency(st *pstate, in ssa.Instruction) bool {
+	switch in := in.(type) {
+	case *ssa.Select:
+		if in.Blocking {
+			x.blocking(st, in, "select")
+		}
+		// result: (index int, recvOk bool, r_0 T_0, ... r_n-1 T_n-1) for the receive states
+		n := len(in.States)
+		idx := x.env.Fresh("select$index", BV64)
+		lo := int64(0)
+		if !in.Blocking {
+			lo = -1 // default case
+		}
+		st.assume(smt.And(smt.BVSge(idx, bv64(lo)), smt.BVSlt(idx, bv64(int64(n)))), "select chooses one of its cases")
+		tup := Tuple{idx, x.env.Fresh("select$ok", smt.Bool)}
+		for _, s := range in.States {
+			if s.Dir == types.RecvOnly {
+				et := s.Chan.Type().Underlying().(*types.Chan).Elem()
+				v := x.env.FreshVal("select$recv", x.p.T.SortOf(et))
+				tup = append(tup, x.wrap(v, et))
+			}
+		}
+		x.set(st, in, tup)
+		return false
+	case *ssa.Send:
+		x.blocking(st, in, "channel send")
+		return false
+	case *ssa.Go:
+		unsupp("go statement")
+	}
 	unsupp("concurrency instruction %T", in)
 	return false
 }
 
 func (x *exec) chanClose(st *pstate, args []Val, in ssa.Instruction) {
-	unsupp("close of channel")
+	// closing a channel has no effect on the modelled state
 }
 
 // ---- maps (filled in by maps.go once needed)
@@ -54,16 +102,4 @@ func (x *exec) rangeNext(st *pstate, in *ssa.Next) Val {
 	return nil
 }
 
-// ---- monitors (filled in by monitor.go once needed)
-
-type monitorInfo struct{}
-
-func (x *exec) setupMonitor(st *pstate)                                                {}
-func (x *exec) monitorAccess(st *pstate, l *Loc, in ssa.Instruction, write bool)        {}
-func (x *exec) monitorExit(st *pstate, in ssa.Instruction)                              {}
-func (x *exec) monitorCovers(l *Loc) *smt.Term                                          { return nil }
-func (x *exec) monitorCallPre(st *pstate, c *Contract, callee *ssa.Function, args []Val, in ssa.Instruction)  {}
-func (x *exec) monitorCallPost(st *pstate, c *Contract, callee *ssa.Function, args []Val, in ssa.Instruction) {}
-func (x *exec) monitorSpecial(st *pstate, key string, callee *ssa.Function, cc *ssa.CallCommon, args []Val, in ssa.Instruction) (Val, bool, bool) {
-	return nil, false, false
-}
+var _ = fmt.Sprintf
